@@ -77,7 +77,11 @@ def role_coherence(facts, fn, sr, call, op, slots, res, R="C02.1.role-coherence"
                         accs.append((part, e))
                         if e["accessor"] not in PART_ACCESSORS.get(part, set()):
                             res.violation(R, f, fnq, "%s:%s.%s" % (key0, role, part), line, "vector slot '%s %s' of %s is filled through accessor %s" % (role, part, op, e["accessor"]))
-                if not s["elems"]:
+                if not s["elems"] and s.get("escaped") is not None:
+                    # filled by a callee through a reference parameter (possibly through an accessor callback): which cells it holds is not
+                    # followed; the position codes that accompany it are still judged below
+                    res.instance(R, "%s %s:%s.%s" % (fnq, key0, role, part), facts.loc(s["escaped"]), "vector filled by %s() through a reference parameter: contents not followed" % tbf.callee_name(s["escaped"]))
+                elif not s["elems"]:
                     res.violation(R, f, fnq, "%s:%s.%s" % (key0, role, part), line, "vector handed as '%s %s' is never filled" % (role, part))
         # a leaf is described by two parallel containers (its cell group and its particle group): one group per container kind
         cellg = set(a["group"] for _p, a in accs if a["accessor"].startswith("getCell"))
@@ -98,6 +102,13 @@ def role_coherence(facts, fn, sr, call, op, slots, res, R="C02.1.role-coherence"
                 cnt = [x for p2, _io, x in items if p2 == "count"]
                 for fill in s["fills"]:
                     vo = (s.get("filler_fm") or sr.fm).origin(fill["value"])
+                    if not [a_ for _p2, a_ in accs if a_.get("fill_node") is not None] and s.get("foreign") is not None:
+                        # the cells are gathered by a helper this rule does not follow; a position code is still either the child code of a
+                        # cell's index or the code member of an interaction record - never a running counter (the tree stores non-empty cells
+                        # only: the n-th stored child is not the child at position n)
+                        if "childPositionFromParent(" not in vo and "arrayIndexSrc" not in vo:
+                            res.violation(R, f, fnq, "%s:%s.positions" % (key0, role), fill["node"]["l"][1],
+                                          "position code `%s` (filled in %s()) is not the child position code of a cell's index: the tree stores non-empty cells only, so the n-th gathered child is not the child at position n whenever an octant is empty" % (vo[:80], s["foreign"]["name"]))
                     for _p, a in accs:
                         if a.get("fill_node") is None:
                             continue
